@@ -1,4 +1,6 @@
 import AfqmcVerif.Lemmas.SingleDet
+import Mathlib.Tactic.FieldSimp
+import Mathlib.Tactic.Ring
 
 /-!
 # C03 — force bias = ⟨ψ_T|L_g|φ⟩/⟨ψ_T|φ⟩ (single-determinant kinds; all dimensions)
@@ -39,6 +41,25 @@ theorem first_order_is_derivation (C W : Matrix (Fin m) (Fin k) K) (O : Matrix (
     obNumer (ovlp C) O W / ovlp C W = ((Cᴴ * W)⁻¹ * (Cᴴ * O * W)).trace := by
   rw [obNumer_ovlp C W O h, contract_green]
   unfold rot
+  field_simp
+
+/-- **NOCI**: `noci._calc_force_bias` returns `Σ_d c_d ov_d fb_d / Σ_d c_d ov_d`; by linearity of the numerator in
+the bra this is the mixed expectation of `L_γ` for `⟨ψ_T| = Σ_d c_d ⟨ψ_d|`, written with column replacements -/
+theorem noci_force_bias_is_mixed_expectation {nd : ℕ} (H : Ham m g K) (c : Fin nd → K)
+    (Ca : Fin nd → Matrix (Fin m) (Fin ka) K) (Cb : Fin nd → Matrix (Fin m) (Fin kb) K)
+    (Wa : Matrix (Fin m) (Fin ka) K) (Wb : Matrix (Fin m) (Fin kb) K)
+    (h : ∀ d, ovlp (Ca d) Wa ≠ 0 ∧ ovlp (Cb d) Wb ≠ 0) (γ : Fin g) :
+    (∑ d, c d * uhfOverlap (Ca d) (Cb d) Wa Wb * uhfForceBias H (Ca d) (Cb d) Wa Wb γ)
+        / (∑ d, c d * uhfOverlap (Ca d) (Cb d) Wa Wb)
+      = (∑ d, c d * (obNumer (ovlp (Ca d)) (H.L γ) Wa * ovlp (Cb d) Wb
+                      + ovlp (Ca d) Wa * obNumer (ovlp (Cb d)) (H.L γ) Wb))
+        / (∑ d, c d * (ovlp (Ca d) Wa * ovlp (Cb d) Wb)) := by
+  congr 1
+  refine Finset.sum_congr rfl fun d _ => ?_
+  rw [uhf_force_bias_is_mixed_expectation H (Ca d) (Cb d) Wa Wb (h d).1 (h d).2 γ]
+  unfold uhfOverlap
+  have h1 := (h d).1
+  have h2 := (h d).2
   field_simp
 
 end AfqmcVerif.Props.C03
